@@ -118,6 +118,12 @@ func Case(w *vt.W, rng *rand.Rand, id, maxLen int) {
 	if shortEnds {
 		minLen, minID, self = []int{50, 60}[rng.Intn(2)], 0.9, false
 	}
+	// a target longer than 15360 letters under the loosest settings: Optimise's seed fallback decides there whether
+	// the settings are accepted at all (if they are, the copy must be found; if not, nothing is demanded)
+	if id%40 == 7 && !shortSeed {
+		minLen, minID, self, shortEnds = 40, 0.8, false, false
+		lt = 15500 + rng.Intn(2000)
+	}
 	T := randSeq(rng, lt)
 	var Q []byte
 	var plants []Plant
@@ -321,6 +327,33 @@ func GapSeries(w *vt.W, m int) {
 		qa := rng.Intn(len(Q) - len(cp))
 		copy(Q[qa:], cp)
 		w.Emit(runCase(2000000+i, T, Q, false, 100, 0.9, []Plant{{ta, ta + ln, qa, qa + len(cp), rev, 0, pals.MaxIGap, false}}))
+	}
+}
+
+// StrandSeries: a fixed series (own constant random stream, like GapSeries) of small comparisons under
+// Optimise(100, 0.92) - a filter that needs several shared words per tube - with one exact copy of 150-250 letters on
+// the complement strand: both passes run on one PALS value, so whatever the forward pass leaves behind in the
+// filter, the sorter or the merger meets a repeat that only the second pass can find.
+func StrandSeries(w *vt.W, m int) {
+	rng := rand.New(rand.NewSource(20260928))
+	for i := 0; i < m; i++ {
+		T, Q := randSeq(rng, 1500+rng.Intn(1500)), randSeq(rng, 1500+rng.Intn(1500))
+		ln := 150 + rng.Intn(101)
+		ta := rng.Intn(len(T) - ln)
+		cp := revcomp(append([]byte{}, T[ta:ta+ln]...))
+		qa := rng.Intn(len(Q) - ln)
+		copy(Q[qa:], cp)
+		// In every other comparison the forward pass is left something unfinished: one word of 12 letters shared
+		// with the target near the end of the query, on the diagonal the copy will occupy in the complement pass
+		// (too little for a filter hit, and still in an open tube when the forward query ends).
+		if i%2 == 1 {
+			qs := len(Q) - 30 - rng.Intn(40)
+			ts := ta - (len(Q) - qa - ln) + qs
+			if qs >= qa+ln+20 && ts >= 0 && ts+12 <= len(T) && (ts+12 <= ta || ts >= ta+ln) {
+				copy(Q[qs:qs+12], T[ts:ts+12])
+			}
+		}
+		w.Emit(runCase(3000000+i, T, Q, false, 100, 0.92, []Plant{{ta, ta + ln, qa, qa + ln, true, 0, 0, false}}))
 	}
 }
 
